@@ -355,7 +355,7 @@ def run(ctx):
     ctx.run_cases('text-parent', text_parent_cases())
     ctx.exhaustive('3 parent chains × 5 text-only items that keep their children × 6 child shapes × haml/pug/slim × 2 indents: every element on its own line at its depth')
     if ctx.thorough or os.environ.get('VERIF_FUZZ'):
-        ctx.run_atheris('lines', ctx.pick(300, 4000), guided=True)
+        ctx.run_atheris('lines', ctx.pick(300, 1500), guided=True)
 
 
 # coverage-guided layer (thorough tier): the Hypothesis strategy under libFuzzer (vlib/fuzz.py, guided mode)
